@@ -91,7 +91,7 @@ def run(tier, seed, which="C15"):
             if e.get("e") == "Ret" and e.get("op") == "write" and e.get("rc") == 0:
                 out.append(tokenize_out.layout(e["file"], e["fmt"]))
         kv.write_ndjson(tp, out)
-        res = kv.run_tlc("WriterTrace", "WriterTrace.cfg", bwd, trace=tp, cont=True, timeout=900, heap="3g")
+        res = kv.run_tlc("WriterTrace", "WriterTrace.cfg", bwd, trace=tp, timeout=900, heap="3g")
         return bi, tp, rc, err, res, out
 
     for bi, tp, rc, err, res, ev in kv.pmap(do, range(len(batches)), workers=12):
